@@ -15,7 +15,7 @@
 
 namespace {
 
-struct TestError : std::exception {};
+struct TestError {};  // deliberately not derived from std::exception: adapters must pass on whatever was thrown
 struct ConvError : std::exception {};
 
 enum Adapter { A_CB_AWAIT = 0, A_CB_AWAIT_ALLOC, A_MAKE_PROMISE, A_MAKE_PROMISE_STORAGE, A_DISCARD, A_CONV_MEMBER, A_CONV_MEMBER_VOID, A_CONV_MEMBER_SP, A_CONV_MEMBER_SP_VOID, A_CONV_STATIC, A_CONV_STATIC_CTX, A_CALL_FN, A_CB_AWAIT_FACTORY, A_CB_AWAIT_FACTORY_CORO, A_CB_AWAIT_ALLOC_FACTORY_CORO, NADAPT };
@@ -88,6 +88,7 @@ static void classify_future(cocls::future<T> &f, Probe &p) {
 // converters -----------------------------------------------------------------------------------
 struct Conv {
     bool throws = false;
+    bool declines = false;  // promise-flavoured converters only: return without resolving or keeping the outer promise
     int calls = 0;
     int conv(int &v) {
         calls++;
@@ -102,11 +103,13 @@ struct Conv {
     cocls::suspend_point<void> conv_sp(int &v, cocls::promise<int> &p) {
         calls++;
         if (throws) throw ConvError();
+        if (declines) return {};
         return p(v * 10);
     }
     cocls::suspend_point<void> conv_sp_void(cocls::promise<int> &p) {
         calls++;
         if (throws) throw ConvError();
+        if (declines) return {};
         return p(50);
     }
     static int sconv(int &v) { return v * 10; }
@@ -241,7 +244,8 @@ static void run_cell(seqx::Runner &R, int ad, int out, int tim, int cthrow) {
         Src<int> src;
         Src<void> vsrc;
         Conv conv;
-        conv.throws = cthrow != 0;
+        conv.throws = cthrow == 1;
+        conv.declines = cthrow == 2;
         switch (ad) {
             case A_CB_AWAIT:
             case A_CB_AWAIT_ALLOC: {
@@ -408,8 +412,10 @@ static void run_cell(seqx::Runner &R, int ad, int out, int tim, int cthrow) {
             // the source's exception / broken promise reaches the outer future; the converter body runs only for a value
             (void)void_src;
             conv_runs = out == O_VALUE;
-            if (conv_runs && cthrow && ad != A_CONV_STATIC)
+            if (conv_runs && cthrow == 1 && ad != A_CONV_STATIC)
                 ek = 4;
+            else if (conv_runs && cthrow == 2)
+                ek = 3;  // nobody answered: the outer promise is dropped, the outer future reports a broken promise
             else if (out == O_VALUE) {
                 ek = 1;
                 ev = 50;
@@ -438,9 +444,10 @@ void seqx_run(seqx::Runner &R, const std::string &) {
     for (int ad = 0; ad < NADAPT; ad++)
         for (int out = 0; out < NOUT; out++)
             for (int tim = 0; tim < NTIM; tim++)
-                for (int ct = 0; ct < 2; ct++) {
+                for (int ct = 0; ct < 3; ct++) {
                     bool is_conv = ad >= A_CONV_MEMBER && ad <= A_CONV_STATIC_CTX;
                     if (ct && (!is_conv || ad == A_CONV_STATIC)) continue;
+                    if (ct == 2 && ad != A_CONV_MEMBER_SP && ad != A_CONV_MEMBER_SP_VOID) continue;
                     if (R.next_case()) run_cell(R, ad, out, tim, ct);
                 }
     for (int t1 = 0; t1 < NTIM; t1++)
